@@ -1089,7 +1089,13 @@ class Module(ABC):
             ]
 
         # Sorted inds are only used to infer the correct starting values.
-        indices_per_param = jnp.stack(comp_inds)
+        # The padded entries (`-1`) must not be used as indices when the parameter is
+        # written into the arrays of all parameters: a negative index addresses the
+        # last row of the module. Replace them by an index of the same group (setting
+        # the same value twice is harmless).
+        indices_per_param = jnp.stack(
+            [np.where(inds == -1, inds[0], inds) for inds in comp_inds]
+        )
 
         # Assign dummy param (ignored by nanmean later). This adds a new row to the
         # `data` (which is, e.g., self.nodes). That new row has index `-1`, which does
